@@ -81,6 +81,20 @@ theorem write_dup_no_file (ns : NewSsi) (h : ns.WF) (cur : Option Bytes)
   simp only [hd, ↓reduceIte, Prod.mk.injEq] at this
   exact this
 
+/-- "trying to `_Write()` the `ESL_NEWSSI` more than once": the second call returns `eslEINVAL` and touches nothing — the
+    index file is what the first call left (the image, or no file after `eslEDUP`) -/
+theorem write_twice (ns : NewSsi) (h : ns.WF) (cur : Option Bytes) :
+    ((ns.write cur).1.write (ns.write cur).2.2).2 = (some .einval, (ns.write cur).2.2) := by
+  have h1 : ¬ (ns.nsecondary > 0 ∧ ns.slen = 0) := by
+    rintro ⟨ha, hb⟩
+    rw [h.nsecondary] at ha
+    obtain ⟨a, hmem⟩ := List.exists_mem_of_length_pos ha
+    have := (h.skey a hmem).2.2
+    omega
+  unfold NewSsi.write
+  simp only [h1, ↓reduceIte, h.notWritten, Bool.false_eq_true]
+  cases ns.writeBytes <;> simp [h1]
+
 /-- whenever `Write` leaves a file, the keys were distinct and the file is the image -/
 theorem written_file (ns : NewSsi) (h : ns.WF) (cur : Option Bytes) (bytes : Bytes) (hw : (ns.write cur).2.2 = some bytes) :
     ns.Distinct ∧ bytes = ns.image := by
